@@ -374,6 +374,89 @@ theorem dropOversized_char (s : State) (hi : s.outgoingTotal = sumLen s.outgoing
 
 theorem keep_iff (m : Nat) (d : Bytes) : keep m d = true ↔ d.length < m := by simp [keep, Gen.dgKeep]
 
+/-! ### drop_oversized_front and the purge at the top of poll_transmit -/
+
+/-- does not fit the current maximum -/
+def unfit (m : Nat) (d : Bytes) : Bool := !Gen.dgFrontFits d.length m
+
+theorem unfit_iff (m : Nat) (d : Bytes) : unfit m d = true ↔ m < d.length := by
+  simp [unfit, Gen.dgFrontFits]
+
+/-- is the head of the queue unsendable? -/
+def headUnfit (m : Nat) : List Bytes → Bool
+  | [] => false
+  | d :: _ => unfit m d
+
+theorem sumLen_dropWhile_le (p : Bytes → Bool) (q : List Bytes) : sumLen (q.dropWhile p) ≤ sumLen q := by
+  induction q with
+  | nil => simp [sumLen]
+  | cons d q ih =>
+    simp only [List.dropWhile_cons]
+    split
+    · simp only [sumLen]; omega
+    · exact Nat.le_refl _
+
+theorem dropFront_char (m : Nat) : ∀ (q : List Bytes) (extra : Nat),
+    dropFront m q (sumLen q + extra) =
+      some (q.dropWhile (unfit m), sumLen (q.dropWhile (unfit m)) + extra, headUnfit m q) := by
+  intro q
+  induction q with
+  | nil => intro extra; simp [dropFront, sumLen, headUnfit]
+  | cons d q ih =>
+    intro extra
+    by_cases hk : Gen.dgFrontFits d.length m = true
+    · have hu : unfit m d = false := by simp [unfit, hk]
+      simp only [dropFront, hk, if_true, List.dropWhile_cons, hu, Bool.false_eq_true, if_false, headUnfit]
+    · have hk' : Gen.dgFrontFits d.length m = false := by simpa using hk
+      have hu : unfit m d = true := by simp [unfit, hk']
+      have h1 := ih extra
+      have hnl : ¬ (sumLen (d :: q) + extra < d.length) := by simp only [sumLen]; omega
+      have e1 : sumLen (d :: q) + extra - d.length = sumLen q + extra := by simp only [sumLen]; omega
+      simp only [dropFront, hk', Bool.false_eq_true, if_false, hnl, e1, h1, List.dropWhile_cons, hu, if_true, headUnfit]
+
+/-- `drop_oversized_front` removes exactly the maximal prefix of datagrams longer than `max_payload` -/
+theorem dropOversizedFront_char (s : State) (hi : s.outgoingTotal = sumLen s.outgoing) (m : Nat) :
+    dropOversizedFront s m =
+      ({ s with outgoing := s.outgoing.dropWhile (unfit m), outgoingTotal := sumLen (s.outgoing.dropWhile (unfit m)) },
+       .dropped (headUnfit m s.outgoing)) := by
+  have := dropFront_char m s.outgoing 0
+  simp only [Nat.add_zero] at this
+  simp only [dropOversizedFront, hi, this]
+
+theorem purgeGlue_char (s : State) (hi : s.outgoingTotal = sumLen s.outgoing) (max : Option Nat) :
+    (max = none ∧ purgeGlue s max = (s, .glue none))
+    ∨ (∃ m, max = some m
+        ∧ purgeGlue s max =
+          ({ s with outgoing := s.outgoing.dropWhile (unfit m), outgoingTotal := sumLen (s.outgoing.dropWhile (unfit m)),
+                    sendBlocked := s.sendBlocked && !(headUnfit m s.outgoing) },
+           .glue (some (headUnfit m s.outgoing, headUnfit m s.outgoing && s.sendBlocked)))) := by
+  cases max with
+  | none => left; simp [purgeGlue]
+  | some m =>
+    right
+    refine ⟨m, rfl, ?_⟩
+    simp only [purgeGlue, dropOversizedFront_char s hi m]
+    cases ha : headUnfit m s.outgoing <;> cases hb : s.sendBlocked <;> simp [hb]
+
+/-- after the purge the head of the queue — the datagram `write` takes next — is within the maximum -/
+theorem head_dropWhile_fits (m : Nat) : ∀ (q : List Bytes) (d : Bytes) (rest : List Bytes),
+    q.dropWhile (unfit m) = d :: rest → d.length ≤ m := by
+  intro q
+  induction q with
+  | nil => intro d rest h; simp at h
+  | cons x q ih =>
+    intro d rest h
+    by_cases hu : unfit m x = true
+    · simp only [List.dropWhile_cons, hu, if_true] at h; exact ih d rest h
+    · have hu' : unfit m x = false := by simpa using hu
+      simp only [List.dropWhile_cons, hu', Bool.false_eq_true, if_false, List.cons.injEq] at h
+      have : ¬ (m < x.length) := fun hlt => by
+        have := (unfit_iff m x).2 hlt; rw [hu'] at this; exact Bool.noConfusion this
+      rw [← h.1]; omega
+
+theorem mem_of_mem_dropWhile {α} (p : α → Bool) (x : α) (l : List α) (h : x ∈ l.dropWhile p) : x ∈ l :=
+  (List.dropWhile_sublist p).subset h
+
 /-! ### frames and write -/
 
 /-- the receiving side's reading of a DATAGRAM-with-length frame (spec): type, varint length, payload -/
@@ -606,6 +689,12 @@ theorem step_inv (s : State) (hi : Inv s) (op : Op) (hw : op.WF) :
     · rw [h]; exact ⟨hi, by simp, by simp⟩
     · rw [h]
       exact ⟨⟨rfl, hi.inc, fun x hx => hi.sane x ((List.mem_filter.1 hx).1)⟩, by simp, by simp⟩
+  | purgeGlue max =>
+    simp only [step]
+    rcases purgeGlue_char s hi.out max with ⟨_, h⟩ | ⟨m, _, h⟩
+    · rw [h]; exact ⟨hi, by simp, by simp⟩
+    · rw [h]
+      exact ⟨⟨rfl, hi.inc, fun x hx => hi.sane x (mem_of_mem_dropWhile _ x _ hx)⟩, by simp, by simp⟩
 
 /-! ### runs -/
 
@@ -709,6 +798,12 @@ theorem fifo_general (ops : List Op) : ∀ (s : State), Inv s → (∀ op ∈ op
       apply other
       · simp only [step]
         rcases blackHoleGlue_char s hi.out max with ⟨_, h⟩ | ⟨m, _, h⟩ <;> rw [h]
+      · intro d w e h; simp at h
+      · intro d h; simp at h
+    | purgeGlue max =>
+      apply other
+      · simp only [step]
+        rcases purgeGlue_char s hi.out max with ⟨_, h⟩ | ⟨m, _, h⟩ <;> rw [h]
       · intro d w e h; simp at h
       · intro d h; simp at h
     | recv =>
@@ -825,6 +920,11 @@ theorem step_total (s : State) (hi : Inv s) (op : Op) (hw : op.WF) :
     rcases blackHoleGlue_char s hi.out max with ⟨_, h⟩ | ⟨m, _, h⟩
     · rw [h]; exact Nat.le_refl _
     · rw [h]; simp only [hi.out]; exact sumLen_filter_le _ _
+  | purgeGlue max =>
+    left; simp only [step]
+    rcases purgeGlue_char s hi.out max with ⟨_, h⟩ | ⟨m, _, h⟩
+    · rw [h]; exact Nat.le_refl _
+    · rw [h]; simp only [hi.out]; exact sumLen_dropWhile_le _ _
 
 /-- with one send-buffer size for the whole run (a connection's configuration is fixed) the bound is global -/
 theorem total_le_fixed (b : Nat) (ops : List Op) : ∀ (s : State), Inv s → s.outgoingTotal ≤ b →
@@ -880,6 +980,9 @@ theorem step_buffered (s : State) (hi : Inv s) (op : Op) (hw : op.WF) :
   | blackHoleGlue max =>
     left; simp only [step]
     rcases blackHoleGlue_char s hi.out max with ⟨_, h⟩ | ⟨m, _, h⟩ <;> rw [h] <;> exact Nat.le_refl _
+  | purgeGlue max =>
+    left; simp only [step]
+    rcases purgeGlue_char s hi.out max with ⟨_, h⟩ | ⟨m, _, h⟩ <;> rw [h] <;> exact Nat.le_refl _
 
 /-- with the connection's single configured `datagram_receive_buffer_size` (`received` is called with it, or with
     `None` = disabled) the charge is bounded in every reachable state -/
@@ -942,8 +1045,51 @@ theorem maxSize_some (mtu oh : Nat) (peer : Option Nat) (r : Option Nat) (h : ma
         have : Nat.min (p - Gen.dgSizeBound) (mtu - oh - Gen.dgSizeBound) ≤ mtu - oh - Gen.dgSizeBound := Nat.min_le_right _ _
         omega
 
-theorem overhead_le (cid : Nat) (h : cid ≤ 20) : overhead cid ≤ 41 := by
-  simp only [overhead, Gen.dgOverhead, Gen.dgPnLenBound, Gen.dgTagLenGuess]; omega
+theorem overhead_le (cid : Nat) (scid : Option Nat) (h : cid ≤ 20) (hs : ∀ l, scid = some l → l ≤ 20) :
+    overhead cid scid ≤ 69 := by
+  cases scid with
+  | none => simp only [overhead, Gen.dgOverhead, Gen.dgPnLenBound, Gen.dgTagLenGuess]; omega
+  | some l =>
+    have := hs l rfl
+    simp only [overhead, Gen.dgOverhead, Gen.dgPnLenBound, Gen.dgTagLenGuess, Gen.dgLongHeaderExtra]; omega
+
+/-! ### what `max_size()` promises, measured on the packet as it is really built (RFC 9000 §17.2, §17.3)
+
+The layouts are written down from the RFC, not from `predict_1rtt_overhead`. -/
+
+/-- length of a 1-RTT packet: flags, destination CID, packet number, payload, AEAD tag (RFC 9000 §17.3.1) -/
+def shortPacketLen (dcid pn payload tag : Nat) : Nat := 1 + dcid + pn + payload + tag
+
+/-- length of a 0-RTT packet: flags, version (4), DCID length + DCID, SCID length + SCID, Length (quinn always
+    writes the two-byte form), packet number, payload, AEAD tag (RFC 9000 §17.2.3) -/
+def zeroRttPacketLen (dcid scid pn payload tag : Nat) : Nat := 1 + 4 + (1 + dcid) + (1 + scid) + 2 + pn + payload + tag
+
+/-- the packet that carries application data with the keys at hand (`scid = some l`: only 0-RTT keys) -/
+def dataPacketLen (dcid : Nat) (scid : Option Nat) (pn payload tag : Nat) : Nat :=
+  match scid with
+  | none => shortPacketLen dcid pn payload tag
+  | some l => zeroRttPacketLen dcid l pn payload tag
+
+/-- a datagram within `max_size()` fits, as one whole frame, a packet of at most `current_mtu` bytes with the
+    header really in use — short with the current remote CID, or the 0-RTT long header — and any packet-number
+    length -/
+theorem fits_real_packet (mtu dcid : Nat) (scid : Option Nat) (peer : Option Nat) (m : Nat)
+    (h : maxSize mtu (overhead dcid scid) peer = some (some m)) (hmtu : mtu < 2^62) (d : Bytes) (hd : d.length ≤ m)
+    (pn : Nat) (hpn : pn ≤ 4) :
+    ∃ fs, frameSize d = some fs ∧ dataPacketLen dcid scid pn fs Gen.dgTagLenGuess ≤ mtu := by
+  have hs := (maxSize_some mtu (overhead dcid scid) peer _ h).2 m rfl
+  have hlt : d.length < 2^62 := by omega
+  obtain ⟨fs, fr, hfs, _, _, hbound, _⟩ := frame_ok d hlt
+  refine ⟨fs, hfs, ?_⟩
+  cases scid with
+  | none =>
+    simp only [dataPacketLen, shortPacketLen, overhead, Gen.dgOverhead, Gen.dgPnLenBound, Gen.dgTagLenGuess,
+      Gen.dgSizeBound] at *
+    omega
+  | some l =>
+    simp only [dataPacketLen, zeroRttPacketLen, overhead, Gen.dgOverhead, Gen.dgPnLenBound, Gen.dgTagLenGuess,
+      Gen.dgSizeBound, Gen.dgLongHeaderExtra] at *
+    omega
 
 /-- a datagram within `max_size()` fits the frame budget of an otherwise empty 1-RTT packet -/
 theorem fits_packet (mtu oh : Nat) (peer : Option Nat) (m : Nat) (h : maxSize mtu oh peer = some (some m))
